@@ -53,6 +53,20 @@ def fd_function(name):
         def J(x):
             return np.array([[1.0, 40 * np.cos(40 * x[1])], [1e-4, -25 * np.sin(25 * x[1])], [1e-4 * x[1], 1e-4 * x[0]]])
         return f, J, (2,), False
+    if name in ("pend2", "chain3"):
+        # second-order equations written as first-order systems: structural zeros and constant entries beside ONE nonlinear entry whose truncation error takes
+        # either sign along the lattice of evaluation points (a refinement loop that looks at a signed or a mixed quantity stops early on one of the signs)
+        if name == "pend2":
+            return ((lambda x: np.array([x[1], -5.0 * np.sin(5.0 * x[0])])),
+                    (lambda x: np.array([[0.0, 1.0], [-25.0 * np.cos(5.0 * x[0]), 0.0]])), (2,), False)
+
+        def f(x):
+            return np.array([x[1], x[2], -np.exp(-x[0]) * np.sin(4.0 * x[0]) - 0.5 * x[2]])
+
+        def J(x):
+            d = np.exp(-x[0]) * np.sin(4.0 * x[0]) - 4.0 * np.exp(-x[0]) * np.cos(4.0 * x[0])
+            return np.array([[0.0, 1.0, 0.0], [0.0, 0.0, 1.0], [d, 0.0, -0.5]])
+        return f, J, (3,), False
     if name == "smooth_matrix":
         # X (2,2) -> sin(X) @ X : d/dX[k,l] of sum_m sin(X[i,m]) X[m,j]
         def f(X):
@@ -89,8 +103,12 @@ def fd_case(case):
     #  it is read for the default adaptive mode; the non-adaptive cells only check what that mode can deliver)
     if case["fn"] == "steep23":
         pts = list(itertools.product([0.0, 0.3, 5.0, 4096.0, 1e4], [0.3, 0.75, -0.6]))       # the steep argument stays O(1); its neighbour takes every size
+    if case["fn"] in ("pend2", "chain3"):
+        pts = [(-1.5 + 0.125 * k, v) for k in range(25) for v in (0.3, -2.0)]          # the nonlinear argument along a lattice of 25 points
     for pv in pts:
         vals = [pv[i % len(pv)] * (1 if i % 3 else -1) * (1 + 0.125 * (i // 2)) for i in range(n)]
+        if case["fn"] in ("pend2", "chain3"):
+            vals = [pv[0]] + [pv[1] * (1 + 0.5 * i) for i in range(n - 1)]
         x = np.array(vals, dtype=np.float64).reshape(shape) if shape else np.float64(vals[0])
         kw = dict(base_order=case["order"], flat=case["flat"])
         if not linear:
@@ -286,14 +304,14 @@ def step16(cfg, hist):
 
 def run(ctx):
     depth = 4 if ctx.quick else 5
-    ctx.rule = ("(a) full product 5 functions (non-square linear, matrix-shaped linear, scalar, smooth vector, smooth matrix-valued) x evaluation points with components in "
+    ctx.rule = ("(a) full product 8 functions (non-square linear, matrix-shaped linear, scalar, smooth vector, steep, smooth matrix-valued, two second-order systems in first-order form along a 25-point lattice) x evaluation points with components in "
                 "{1e-8, 0.3, 5, 1e4} x base_order {2,3,5,7} x flat on/off x tolerance; (b) E1 breadth-first search to depth %d over {jac(t_a|t_b, y_a|y_b), hook(J1), hook(J2), unhook, "
                 "rhs.jac = J1, plain call, set / delete a jac attribute on the user's function} on a DiffRHS (with and without a jac attribute on the user's function), reference model = one variable 'attached'; "
                 "distinct = distinct (section, function/op history) classes" % depth)
     ctx.assumptions += ["linear maps: round-off of differencing only, 1e5*eps*|A||x|; smooth: 100*(rtol|J| + atol) plus the round-off floor 1e5*eps*|f||x| of differencing",
                         "without a user Jacobian the DiffRHS answer must be within 1e-6 relative of the analytic Jacobian at the requested (t, y)"]
     if not ctx.only or "fd" in ctx.only:
-        cases = [dict(fn=fn, order=o, flat=fl, tol=tol) for fn in ("linear32", "linear_matrix", "scalar_tanh", "smooth23", "steep23", "smooth_matrix")
+        cases = [dict(fn=fn, order=o, flat=fl, tol=tol) for fn in ("linear32", "linear_matrix", "scalar_tanh", "smooth23", "steep23", "smooth_matrix", "pend2", "chain3")
                  for o in (2, 3, 5, 7) for fl in (False, True) for tol in ((1e-8,) if ctx.quick else (1e-6, 1e-8, 1e-10))]
         cases += [dict(fn=fn, order=o, flat=fl, tol=1e-8, adaptive=False) for fn in ("linear32", "linear_matrix", "smooth23", "steep23", "smooth_matrix") for o in (2, 3, 5) for fl in (False, True)]
         grid.pmap(fd_case, cases, ctx, section="fd", horizon=600, chunksize=1)
